@@ -637,8 +637,14 @@ def via_link(tree):
     return zlib.crc32(json.dumps(tree, sort_keys=True).encode()) % 3 == 0
 
 
-def load_real(tree, rank0):
-    """Write `tree` to a fresh temporary directory, load it with the real loader, return the canonical observation."""
+EXTERNAL_CAUSE_LINE = 'open(__import__("os").environ["C13_EXTERNAL_FILE"]).close()   # something outside the suite files\n'
+
+
+def load_real(tree, rank0, after_failed_load=False):
+    """Write `tree` to a fresh temporary directory, load it with the real loader, return the canonical observation.
+    after_failed_load: every module starts by opening a file OUTSIDE the suite tree that does not exist yet, so that a first
+    load of the project fails; the file is then created -- no suite file is touched -- and the observation is the second load,
+    in the same process (a long-running process, `lcc` run again from a wrapper): the suites are those declared by the files."""
     from lemoncheesecake.suite import builder
     from lemoncheesecake.suite.loader import load_suites_from_directory
     from lemoncheesecake.exceptions import SuiteLoadingError
@@ -648,6 +654,19 @@ def load_real(tree, rank0):
     sys.dont_write_bytecode = True                  # no __pycache__ directories appearing between listings
     try:
         paths = write_tree(tree, root)
+        if after_failed_load:
+            ext = root + "_external"
+            os.environ["C13_EXTERNAL_FILE"] = ext
+            for p in paths:
+                src = open(p).read()
+                with open(p, "w") as fh:
+                    fh.write(src.replace("\n", "\n" + EXTERNAL_CAUSE_LINE, 1))
+            try:
+                load_suites_from_directory(root)
+                load_real.first_load_did_not_fail = getattr(load_real, "first_load_did_not_fail", 0) + (1 if paths else 0)
+            except SuiteLoadingError:
+                pass
+            open(ext, "w").close()
         # the registry of decorated objects only grows (linear membership test): objects of earlier loads are dead
         del builder._objects_with_metadata[:]
         builder.Metadata._next_rank = rank0
@@ -679,6 +698,8 @@ def load_real(tree, rank0):
             sys.modules.pop(p.replace(root, root + "_link", 1), None)
         if os.path.islink(root + "_link"):
             os.remove(root + "_link")
+        if os.path.exists(root + "_external"):
+            os.remove(root + "_external")
         shutil.rmtree(root, ignore_errors=True)
     return obs
 
